@@ -13,6 +13,9 @@
                command name (`doit -f x -k vcmd ...` -> opt_vals -> params.update); observed where loader.setup
                receives the parameters and after DOIT_CONFIG
       task     Task(params).init_options            (per-task config section values)
+      runtask  `doit t <args>` through DoitMain + ModuleTaskLoader + TaskControl._process_filter: task params x
+               per-task config section (API dict / INI / pyproject.toml) x argv after the task name x pos_arg;
+               values observed by the task's action, positionals as pos_arg value or as the further tasks run
       creator  @task_params creator via loader.load_tasks (section task:<name>)
       realcmd  the CmdParse each real doit command builds from its own option table
 (P) the statement, evaluated by the Lean driver from the *structured* input (list of assignments, the four sources;
@@ -45,7 +48,8 @@ META = {
                 'doit/cmd_base.py::DoitCmdBase.get_options', 'doit/cmd_base.py::DoitCmdBase.execute',
                 'doit/doit_cmd.py::DoitMain.run', 'doit/doit_cmd.py::DoitMain.__init__',
                 'doit/doit_cmd.py::DoitMain.process_args',
-                'doit/task.py::Task.init_options', 'doit/loader.py::load_tasks'],
+                'doit/task.py::Task.init_options', 'doit/loader.py::load_tasks',
+                'doit/cmd_base.py::NamespaceTaskLoader.load_tasks', 'doit/control.py::TaskControl._process_filter'],
     'technique': 'Lean 4 proofs over an executable model of getopt + CmdOption/CmdParse/DefaultUpdate (round trip of '
                  'rendered assignments by induction, rejection, purity of parse as a state transformer, precedence) '
                  '+ differential correspondence against the real classes on five code paths + specification monitor',
@@ -73,7 +77,7 @@ META = {
     'rule': 'option tables of 1-6 options over bool/int/str/list with short/long/inverse/choices/env_var (longs drawn '
             'from a pool with prefix relations; 10% ill-formed tables for (K) only) x structured assignment lists in all '
             'rendering forms (+ `--`, positionals) or malformed injections (9 kinds) or garbage token streams x env x '
-            'config sections (raw strings and typed values; API dict, INI file, pyproject.toml) x DOIT_CONFIG, on 6 '
+            'config sections (raw strings and typed values; API dict, INI file, pyproject.toml) x DOIT_CONFIG, on 7 '
             'code paths (one with loader options written before the sub-command name x environment x config); 35% of the cases with an earlier, different command line handled first by the same parser / '
             'command object / process; + all argv up to length 2 (quick) / 3 (thorough) over 16 tokens; + the option '
             'table of every real doit command: each option addressed once through each of its names (the option meant '
@@ -89,7 +93,7 @@ META = {
 
 
 
-PATHS = ['parse', 'parse', 'command', 'main', 'premain', 'task', 'creator']
+PATHS = ['parse', 'parse', 'command', 'main', 'premain', 'task', 'runtask', 'creator']
 
 
 # ------------------------------------------------------------------------------------------------ cases
@@ -167,10 +171,31 @@ def gen_case(rng, base, path=None):
             case['prev_argv'] = prev
     if path == 'premain' and any(a == '' for a in case['pre']):
         return gen_case(rng, base, path)
-    if path in ('main', 'premain', 'creator'):
+    if path == 'runtask':
+        # `doit t <args>`: what is left after t's options is t's pos_arg value, or (no pos_arg) further task names
+        shorts = [o['short'] for o in spec if o['short']]
+        longs = [o['long'] for o in spec if o['long']] + [o['inverse'] for o in spec if o['long'] and o['inverse']]
+        ill = (len(shorts) != len(set(shorts)) or len(longs) != len(set(longs))
+               or any(o['inverse'] and o['type'] != 'bool' for o in spec))
+        # without pos_arg whatever t's parser leaves must be task names: only with a well-formed table
+        case['pos_arg'] = ill or bool(case.get('abbrev')) or rng.random() < 0.4      # abbreviations may leave leftovers too
+        r = rng.random()
+        case['ini'] = [e for e in case['ini'] if e[0] != 'unknown_key']
+        if r < 0.25 and optlib.toml_file_ok(case):
+            case['ini_mode'] = 'toml'
+        elif r < 0.5 and all('raw' in e[1] for e in case['ini']) and optlib.ini_file_ok(case):
+            case['ini_mode'] = 'file'
+        case['cfg_not_none'] = bool(case['ini']) or rng.random() < 0.5
+        if case['asgs'] is not None and not case['malformed']:
+            if not case['pos_arg']:
+                case['pos'] = rng.sample(['u', 'w'], rng.choice([0, 0, 1, 2]))
+            case['argv'] = optlib.render(case['asgs'], case['sep'], case['pos'])
+        elif not case['pos_arg']:
+            return gen_case(rng, base, path)      # malformed / garbage streams: only with pos_arg (any leftover is a value)
+    if path in ('main', 'premain', 'creator', 'runtask'):
         # '' as an argument crashes DoitMain.process_args / loader.load_tasks (arg[0]) before any option parsing;
         # `x=1` positionals are command-line variables for DoitMain: both are outside this property
-        if any(a == '' for a in case['argv']) or (path in ('main', 'premain') and any('=' in a and not a.startswith('-')
+        if any(a == '' for a in case['argv']) or (path in ('main', 'premain', 'runtask') and any('=' in a and not a.startswith('-')
                                                                          for a in case['argv'])):
             return gen_case(rng, base, path)
     if path == 'creator' and (case['pos'] or case['sep'] or any(a == 't' for a in case['argv'])):
@@ -219,6 +244,8 @@ def run_impl(case, workdir):
         return optlib.impl_main(case, workdir)
     if p == 'task':
         return optlib.impl_task(case)
+    if p == 'runtask':
+        return optlib.impl_runtask(case, workdir)
     if p == 'realcmd':
         return impl_realcmd(case)
     return optlib.impl_creator(case)
@@ -299,7 +326,7 @@ def judge(case, impl, model, spec):
     if path == 'premain' and 'ok' in (r1 or {}) and not same_result(impl.get('setup'), model.get('setup'), case):
         div.append('M4/premain: parameters handed to loader.setup differ: impl %s model %s'
                    % (canon(res_key(impl.get('setup')))[:300], canon(res_key(model.get('setup')))[:300]))
-    if path in ('main', 'premain') and 'exit' in impl and impl['exit'] != model.get('exit'):
+    if path in ('main', 'premain', 'runtask') and 'exit' in impl and impl['exit'] != model.get('exit'):
         div.append('M4/main: DoitMain.run ended with %s, the model with exit %s' % (impl['exit'], model.get('exit')))
     if path in ('parse', 'realcmd') and not impl.get('ctor'):
         if not same_result(impl.get('res2'), model['res2'], case):
@@ -570,7 +597,9 @@ def account(st, case, impl, model, spec):
              'prev': case.get('prev_argv'), 'pre': case.get('pre')},
             nontrivial(case, impl))
     st.traces += 1
-    st.count('path:' + case['path'] + (('/config-' + case['ini_mode']) if case['path'] == 'main' else ''))
+    st.count('path:' + case['path'] + (('/config-' + case['ini_mode']) if case['path'] in ('main', 'runtask') else ''))
+    if case['path'] == 'runtask':
+        st.count('runtask:pos_arg=%s,section=%s,args=%s' % (bool(case.get('pos_arg')), bool(case['ini']), bool(case['argv'])))
     if case['path'] == 'realcmd':
         st.count('realcmd:' + case['cmd'] + ('/targeted' if case.get('target') is not None else '/random'))
     st.count('options:%d' % (len(case['spec']) - case['n_base']))
@@ -743,6 +772,9 @@ def replay(ctx, data):
     print('path    :', c['path'])
     print('options :', json.dumps(c['spec'][c['n_base']:]))
     print('env     :', c['env'], ' config section:', c['ini'], ' GLOBAL:', c['glob'], ' DOIT_CONFIG:', c['dodo'])
+    if c['path'] == 'runtask':
+        print('task t  : pos_arg=%s, per-task config section present: %s (%s); command line: doit t %s'
+              % (bool(c.get('pos_arg')), bool(c['ini'] or c.get('cfg_not_none')), c.get('ini_mode'), ' '.join(c['argv'])))
     if c.get('pre') is not None:
         print('loader options %s; written before the command name: %s' % (json.dumps(c['lspec']), c['pre']))
     if c.get('prev_argv') is not None:
